@@ -96,34 +96,64 @@ def fix_view_arrays(pid):
     return c
 
 
-def replay_snapshot(obligation, model, meta):
-    """native: a snapshot taken in the middle of a transient and loaded again holds the same DAE values, and continuing from it gives the
-    same state as continuing in the same process"""
+def replay_snapshot(obligation=None, model=None, meta=None):
+    """native: a snapshot taken in the middle of a transient (away from any event) and loaded again holds the same DAE values and the
+    same Jacobian values, the saved system is left intact, and continuing from the loaded copy gives the same state as continuing in
+    the same process"""
     import contextlib
     import io
     import logging
     import numpy as np
     import andes
+    from kvxopt import matrix
     from andes.utils.snapshot import save_ss, load_ss
     logging.getLogger('andes').setLevel(logging.CRITICAL)
-    with contextlib.redirect_stdout(io.StringIO()), contextlib.redirect_stderr(io.StringIO()):
-        ss = andes.load(andes.get_case('kundur/kundur_full.xlsx'), default_config=True, no_output=True)
-        ss.PFlow.run()
-        ss.TDS.config.tf = 2.3
-        ss.TDS.run()
-        saved = {k: np.array(getattr(ss.dae, k)) for k in ('x', 'y', 'f', 'g', 't')}
-        buf = io.BytesIO()
-        save_ss(buf, ss)
-        buf.seek(0)
-        s2 = load_ss(buf)
-    for k, v in saved.items():
-        w = np.array(getattr(s2.dae, k))
-        if v.shape != w.shape or not np.array_equal(v, w):
-            d = np.max(np.abs(v - w)) if v.shape == w.shape else 'shape'
-            return {'confirmed': True, 'inputs': {'case': 'kundur_full', 'snapshot at t': 2.3},
-                    'observed': 'dae.%s differs after save_ss / load_ss (max difference %r)' % (k, d),
-                    'native_cmd': 'save_ss(buffer, system); load_ss(buffer)'}
-    return {'confirmed': False, 'tried': 1}
+
+    def dense(dae):
+        return {k: np.array(matrix(getattr(dae, k))) for k in ('fx', 'fy', 'gx', 'gy')}
+    for t1 in (2.3, 0.5):
+        with contextlib.redirect_stdout(io.StringIO()), contextlib.redirect_stderr(io.StringIO()):
+            ss = andes.load(andes.get_case('kundur/kundur_full.xlsx'), default_config=True, no_output=True)
+            ss.PFlow.run()
+            ss.TDS.config.tf = t1
+            ss.TDS.run()
+            saved = {k: np.array(getattr(ss.dae, k)) for k in ('x', 'y', 'f', 'g', 't', 'Tf')}
+            jac = dense(ss.dae)
+            buf = io.BytesIO()
+            save_ss(buf, ss)
+            buf.seek(0)
+            s2 = load_ss(buf)
+        where = {'case': 'kundur_full', 'snapshot at t': t1}
+        for k, v in saved.items():
+            for who, obj in (('the loaded system', s2), ('the saved system', ss)):
+                w = np.array(getattr(obj.dae, k))
+                if v.shape != w.shape or not np.array_equal(v, w):
+                    d = np.max(np.abs(v - w)) if v.shape == w.shape else 'shape'
+                    return {'confirmed': True, 'inputs': where, 'observed': 'dae.%s of %s differs after save_ss / load_ss (max difference %r)' % (k, who, d),
+                            'native_cmd': 'save_ss(buffer, system); load_ss(buffer)'}
+        for who, obj in (('the loaded system', s2), ('the saved system', ss)):
+            try:
+                j2 = dense(obj.dae)
+            except Exception as e:      # noqa
+                return {'confirmed': True, 'inputs': where, 'observed': 'Jacobian matrices of %s unusable after save_ss / load_ss: %r' % (who, e),
+                        'native_cmd': 'save_ss(buffer, system); load_ss(buffer)'}
+            for k in jac:
+                if jac[k].shape != j2[k].shape or not np.array_equal(jac[k], j2[k]):
+                    return {'confirmed': True, 'inputs': where, 'observed': 'dae.%s of %s does not hold the saved Jacobian values after save_ss / load_ss' % (k, who),
+                            'native_cmd': 'save_ss(buffer, system); load_ss(buffer)'}
+        with contextlib.redirect_stdout(io.StringIO()), contextlib.redirect_stderr(io.StringIO()):
+            ss.TDS.config.tf = t1 + 0.7
+            s2.TDS.config.tf = t1 + 0.7
+            ok1, ok2 = ss.TDS.run(), s2.TDS.run()
+        if ok1 and not ok2:
+            return {'confirmed': True, 'inputs': where, 'observed': 'continuing the loaded snapshot to t=%r fails (stops at t=%r) while the saved system continues' % (t1 + 0.7, float(s2.dae.t)),
+                    'native_cmd': 'save_ss; load_ss; TDS.run() on both'}
+        if ok1 and ok2:
+            d = max(float(np.max(np.abs(ss.dae.x - s2.dae.x))), float(np.max(np.abs(ss.dae.y - s2.dae.y))))
+            if d > 1e-6 or ss.dae.t != s2.dae.t:
+                return {'confirmed': True, 'inputs': where, 'observed': 'continued runs differ: max|d(x, y)| = %.3e, end times %r / %r' % (d, float(ss.dae.t), float(s2.dae.t)),
+                        'native_cmd': 'save_ss; load_ss; TDS.run() on both'}
+    return {'confirmed': False, 'tried': 2}
 
 
 def bounded_reset(pack, pid):
@@ -150,3 +180,109 @@ def bounded_reset(pack, pid):
     pack.bounded.append({'function': 'System.reset', 'kind': 'bounded native (stock cases)', 'bound': ', '.join(cases), 'counted_as_proved': False})
     if bad:
         pack.violation(name, {'bounded': True, 'inputs': bad, 'native_cmd': 'PFlow.run(); System.reset(); PFlow.run(); compare dae.y'})
+
+
+FSN = 'andes/utils/snapshot.py'
+DAE_FIELDS = ('fx', 'fy', 'gx', 'gy', 'x', 'y', 'f', 'g', 't', 'Tf', 'ts', 'tpl')
+
+
+def _snapshot_schema(root):
+    from pyvc.symval import TOpaque
+    return {'%s.dae.%s' % (root, n): TOpaque('Field_' + n) for n in DAE_FIELDS}
+
+
+def save_ss_c(pid):
+    """save_ss: the object handed to dill.dump is the system itself, whole -- at that moment every field of its DAE (values, residuals,
+    the four Jacobian matrices, time, time constants, stored series, sparsity templates) is the one the caller passed in -- dumped once
+    with recurse=True to the given stream or to a file opened for binary writing at the given path; the path is returned and the
+    system is left as it was."""
+    from pyvc.symval import TOpaque, Opaque, Func, Module
+
+    def whole(ex, st):
+        ok = True
+        for n in DAE_FIELDS:
+            a, b = st.load('system.dae.' + n), ex.old.load('system.dae.' + n)
+            ok = ok and isinstance(a, Opaque) and isinstance(b, Opaque) and a.term.eq(b.term)
+        return ok
+
+    def dump(ex, st, args, kw, node):
+        from pyvc.symval import Obj
+        target = args[1] if len(args) > 1 else None
+        is_file = isinstance(target, Mark) and target.kind == 'file' and target.data[0] is st.env['path'] and target.data[1] == 'wb'
+        ok_target = z3.If(st.ghost['stream'], z3.BoolVal(target is st.env['path']), z3.BoolVal(bool(is_file)))
+        ex.oblige(st, 'pre@call:dill.dump(system,<the stream or the file opened "wb" at path>,recurse=True)',
+                  z3.And(z3.BoolVal(bool(isinstance(args[0], Obj) and args[0].path == 'system' and kw.get('recurse') is True)), ok_target), {})
+        ex.oblige(st, 'pre@call:dill.dump:every-DAE-field-of-the-system-is-in-place-when-it-is-dumped', z3.BoolVal(bool(whole(ex, st))), {})
+        st.ghost['dumps'] = st.ghost['dumps'] + 1
+        return None
+
+    def hasattr_(ex, st, args, kw, node):
+        b = fresh('is_stream', z3.BoolSort())
+        st.ghost['stream'] = b
+        return b
+
+    def open_(ex, st, args, kw, node):
+        return Mark('file', args[0], args[1] if len(args) > 1 else 'r')
+
+    def post(old, new, res):
+        return z3.BoolVal(bool(new.st.ghost['dumps'] == 1 and res is old.st.env['path'] and whole_new(new)))
+
+    def whole_new(new):
+        ok = True
+        for n in DAE_FIELDS:
+            a, b = new.st.load('system.dae.' + n), new.ex.old.load('system.dae.' + n)
+            ok = ok and a.term.eq(b.term)
+        return ok
+    c = Contract(FSN, 'save_ss', pid=pid, params={'path': TOpaque('PathOrStream'), 'system': TObj()}, schema=_snapshot_schema('system'),
+                 ghost_init={'dumps': 0, 'stream': None},
+                 calls={'system.remove_pycapsule': lambda ex, st, a, k, n: None, 'hasattr': hasattr_, 'dill.dump': dump, 'open': open_},
+                 globals_={'hasattr': Func('hasattr'), 'dill': Module('dill'), 'open': Func('open')},
+                 ensures=[('dumped-once,whole;returns-path;system-left-as-it-was', post)], modifies=[], static=True)
+    c.merge = False
+    return c
+
+
+def load_ss_c(pid):
+    """load_ss: the generated code is made importable first, the object is read by dill.load from the stream / the file opened "rb" at
+    path, its view arrays are re-pointed (fix_view_arrays, separate contract), and that object is returned with every DAE field as it
+    was read (in particular the Jacobian matrices with the values they were saved with)."""
+    from pyvc.symval import TOpaque, Opaque, Func, Module, Obj
+
+    def rec(tag, ret=None):
+        def h(ex, st, args, kw, node):
+            st.ghost['order'] = st.ghost['order'] + [tag]
+            if tag == 'fix_view_arrays':
+                ex.oblige(st, 'pre@call:fix_view_arrays(<the loaded system>)', z3.BoolVal(bool(args and isinstance(args[0], Obj) and args[0].path == 'loaded')), {})
+            return ret
+        return h
+
+    def load(ex, st, args, kw, node):
+        src = args[0]
+        is_file = isinstance(src, Mark) and src.kind == 'file' and src.data[0] is st.env['path'] and src.data[1] == 'rb'
+        ex.oblige(st, 'pre@call:dill.load(<the stream or the file opened "rb" at path>)',
+                  z3.If(st.ghost['stream'], z3.BoolVal(src is st.env['path']), z3.BoolVal(bool(is_file))), {})
+        st.ghost['order'] = st.ghost['order'] + ['load']
+        return Obj('loaded')
+
+    def hasattr_(ex, st, args, kw, node):
+        b = fresh('is_stream', z3.BoolSort())
+        st.ghost['stream'] = b
+        return b
+
+    def open_(ex, st, args, kw, node):
+        return Mark('file', args[0], args[1] if len(args) > 1 else 'r')
+
+    def post(old, new, res):
+        ok = isinstance(res, Obj) and res.path == 'loaded' and new.st.ghost['order'] == ['import_pycode', 'load', 'fix_view_arrays']
+        for n in DAE_FIELDS:
+            a, b = new.st.load('loaded.dae.' + n), new.ex.old.load('loaded.dae.' + n)
+            ok = ok and isinstance(a, Opaque) and a.term.eq(b.term)
+        return z3.BoolVal(bool(ok))
+    c = Contract(FSN, 'load_ss', pid=pid, params={'path': TOpaque('PathOrStream')}, schema=_snapshot_schema('loaded'),
+                 ghost_init={'order': [], 'stream': None},
+                 calls={'import_pycode': rec('import_pycode'), 'fix_view_arrays': rec('fix_view_arrays'), 'hasattr': hasattr_, 'dill.load': load, 'open': open_},
+                 globals_={'hasattr': Func('hasattr'), 'dill': Module('dill'), 'open': Func('open'), 'import_pycode': Func('import_pycode'),
+                           'fix_view_arrays': Func('fix_view_arrays')},
+                 ensures=[('code-importable,then-loaded,then-views-fixed;returns-the-loaded-object-with-its-DAE-fields-as-read', post)], modifies=[], static=True)
+    c.merge = False
+    return c
